@@ -22,6 +22,19 @@ def check_maps(names):
         if np.abs(g / fd - 1).max() > 1e-6:
             return dict(reproduced=True, cases=cases, map=nm, clause='derivative_chain factor == d sigma / d p (central differences)',
                         max_rel=float(np.abs(g / fd - 1).max()), how='contracts.c14_concrete.check_maps on the real emg3d.maps classes')
+        # the chain factor is that of the mapped values AS THEY ARE NOW: the same map instance, the same array object, edited in place between calls
+        # (Model setters assign in place), three rounds
+        q = p.copy()
+        for rnd in range(3):
+            cases += 1
+            g2 = np.ones_like(q)
+            m.derivative_chain(g2, q)
+            h2 = 1e-6 * np.abs(q) if nm in ('MapConductivity', 'MapResistivity') else 1e-6 * np.ones_like(q)
+            fd2 = (m.backward(q + h2) - m.backward(q - h2)) / (2 * h2)
+            if np.abs(g2 / fd2 - 1).max() > 1e-6:
+                return dict(reproduced=True, cases=cases, map=nm, clause='derivative_chain factor == d sigma / d p at the CURRENT values of an array edited in place since the last call',
+                            round=rnd, max_rel=float(np.abs(g2 / fd2 - 1).max()), how='contracts.c14_concrete.check_maps: one map instance, q[:] = new values between calls')
+            q[:] = m.forward(m.backward(q) * 3.7) if rnd == 0 else q[::-1].copy()
         # the same medium given with another number type (integer array, Python / NumPy integer scalar, float32) maps to the same values
         ints = np.array([1, 2, 3, 10, 1000])
         ref = m.forward(ints.astype(float))
